@@ -73,6 +73,11 @@ enum ErrorKind {
     #[error("too many targets in assignment ({0})")]
     TooManyAssignmentTargets(usize),
     #[error(
+        "too many elements in a nested pattern, {0} is greater than the maximum of {max}",
+        max = i8::MAX
+    )]
+    TooManyNestedPatternElements(usize),
+    #[error(
         "too many container entries, {0} is greater than the maximum of {max}",
         max = u32::MAX
     )]
@@ -1024,6 +1029,11 @@ impl Compiler {
         ctx: CompileNodeContext,
     ) -> Result<()> {
         use Op::*;
+
+        // Elements are accessed with signed 8 bit indices (negative indices count from the end)
+        if args.len() > i8::MAX as usize {
+            return self.error(ErrorKind::TooManyNestedPatternElements(args.len()));
+        }
 
         let mut index_from_end = false;
 
@@ -4234,6 +4244,11 @@ impl Compiler {
         ctx: CompileNodeContext,
     ) -> Result<()> {
         use Op::*;
+
+        // Elements are accessed with signed 8 bit indices (negative indices count from the end)
+        if arm_patterns.len() > i8::MAX as usize {
+            return self.error(ErrorKind::TooManyNestedPatternElements(arm_patterns.len()));
+        }
 
         let mut index_from_end = false;
 
